@@ -362,7 +362,7 @@ fn dispatch<T: Scalar>(cfg: &Cfg, sect: Sect, j: u64, rng: &mut Rng, out: &mut T
             let n = nlist[(j % nn) as usize].max(2);
             let mk = if (j / nn) % 2 == 0 { MaK::Pfe } else { MaK::Eft };
             let n = n.max(catalogue::min_n_ma(mk));
-            let ma = catalogue::ma_specs(rng.usize(1, 6))[((j / (2 * nn)) % 4) as usize].clone();
+            let ma = if mk == MaK::Eft && rng.chance(1, 3) { rng.pick(&catalogue::overshooting_ma_specs(rng.clone().usize(2, 12))).clone() } else { catalogue::ma_specs(rng.usize(1, 6))[((j / (2 * nn)) % 4) as usize].clone() };
             let class = *rng.pick(&degenerate);
             let xs = stream(class, n, base_len + 4 * n, false, rng);
             run_tree::<T>(&Spec::ma(mk, n, Spec::Echo, ma), &xs, out);
